@@ -56,6 +56,9 @@ pub struct CaseSpec {
 	/// (gap in callbacks since the previous command, command)
 	pub cmds: Vec<(usize, Cmd)>,
 	pub tail: usize,
+	/// the device's internal buffer is three times the callback size: every callback is one SHORT chunk, and all times
+	/// (fades, delays, positions, the clock) must still be counted in the frames actually rendered
+	pub short_chunks: bool,
 }
 
 #[derive(Clone, Copy, Debug, PartialEq)]
@@ -134,7 +137,7 @@ fn cmd_code(c: &Cmd) -> u8 {
 }
 
 pub fn run_case(c: &CaseSpec, cov: &mut Cov) -> Result<Vec<u8>, String> {
-	let mut rig = Rig::simple(SR, CHUNK);
+	let mut rig = Rig::simple(SR, if c.short_chunks { CHUNK * 3 } else { CHUNK });
 	let mut track: TrackHandle = rig.mgr.add_sub_track(TrackBuilder::new().sound_capacity(1)).map_err(|_| "track")?;
 	let mut clock: ClockHandle = rig.mgr.add_clock(ClockSpeed::TicksPerSecond(1.0 / chunk_dt())).map_err(|_| "clock")?;
 	clock.start();
@@ -498,6 +501,7 @@ fn gen_random(r: &mut Rng) -> CaseSpec {
 		start_delay: if r.chance(0.2) { Some(r.f64_in(0.0, 5.0)) } else { None },
 		cmds,
 		tail: 12,
+		short_chunks: r.chance(0.3),
 	}
 }
 
@@ -524,7 +528,7 @@ pub fn run(ctx: &mut Ctx) {
 					x /= ng as u64;
 					cmds.push((if i == 0 { GAPS[gi] } else { GAPS[gi].max(1) }, a[ci]));
 				}
-				let c = CaseSpec { streaming: false, finite: if code % 5 == 4 { Some(10 + (code % 7) as usize * 5) } else { None }, fade_in: None, start_delay: None, cmds, tail: 8 };
+				let c = CaseSpec { streaming: false, finite: if code % 5 == 4 { Some(10 + (code % 7) as usize * 5) } else { None }, fade_in: None, start_delay: None, cmds, tail: 8, short_chunks: code % 3 == 1 };
 				one(ctx, "enum", idx, &c, &mut cov);
 			}
 			idx += 1;
